@@ -228,6 +228,8 @@ REFACTORINGS = [
     ('refactoring R14: minify() as a table of (option, stage factory) pairs run by a loop, suite filters by delegation to a SuiteFilter walker, exception whitelist as a version table', 'refactor_r14', ALL),
     ('refactoring R15: printers - token separation as a table, precedence levels as a table with one binds_looser predicate, operator visitors generated from tables, shared base class for nested literals, private attributes renamed', 'refactor_r15', ALL),
     ('refactoring R16: command line module - parser built from tables, os.walk replaced by os.scandir, per-file processing in a class, streams through variables', 'refactor_r16', ALL),
+    ('refactoring R18: 30 modules modernised mechanically (formatting, comprehensions vs loops, merged branches, early returns, generated operator visitors, shared helpers)', 'refactor_r18', ALL),
+    ('refactoring R19: visitor machinery - table-driven visit() with a per-instance handler cache, compound-statement visitors generated from field tables, class-level aliases of factory-built methods, StatementRemover base', 'refactor_r19', ALL),
     # R17: C11 (a generator yields in set order onto an explicit stack of iterators) and C12 (an attribute name of the ast module looked up through a TypeTable
     # object) end as UNDECIDED - exit 2, not a violation - on this one; the other fifteen properties are decided
     ('refactoring R17: support modules - recursion to explicit stacks of resumable iterators, TypeTable look-up objects instead of isinstance chains, plan generators in the mapper', 'refactor_r17',
